@@ -84,6 +84,58 @@ def check_locality(sents, p, new_sentence, width, i0, i1, viol):
             break
 
 
+def documented_sentence_end(word):
+    """Independent implementation of the documented rule (docstring of split_sentences_regex): the word ends
+    (ignoring trailing spaces) in a run of two or more letters whose last one is lowercase, at a word boundary,
+    followed by one of . ? ! optionally followed by a closing quote/parenthesis, or by a closing
+    quote/parenthesis followed by one of . ? !"""
+    import unicodedata
+    w = word.rstrip(" ")
+    closers = "'\"\u2019\u201d)"
+    enders = ".?!"
+    if len(w) >= 2 and w[-1] in closers and w[-2] in enders:
+        core = w[:-2]
+    elif len(w) >= 2 and w[-1] in enders and w[-2] in closers:
+        core = w[:-2]
+    elif w and w[-1] in enders:
+        core = w[:-1]
+    else:
+        return False
+    # trailing letters of core
+    i = len(core)
+    while i > 0 and unicodedata.category(core[i - 1]).startswith("L"):
+        i -= 1
+    letters = core[i:]
+    if len(letters) < 2 or unicodedata.category(letters[-1]) != "Ll":
+        return False
+    # word boundary before the letter run: start of string or a non-word character
+    if i > 0 and (core[i - 1].isalnum() or core[i - 1] == "_"):
+        return False
+    return True
+
+
+def check_heuristic(tier, viol):
+    from flowmark.linewrapping.sentence_split_regex import heuristic_end_of_sentence
+    alphabet = ["a", "B", "c", "é", "1", ".", "!", "?", ")", '"', "\u201d", "-", "_"]
+    n = 0
+    maxlen = 4 if tier == "quick" else 5
+    for ln in range(1, maxlen + 1):
+        for tup in itertools.product(alphabet, repeat=ln):
+            w = "".join(tup)
+            n += 1
+            if heuristic_end_of_sentence(w) != documented_sentence_end(w):
+                viol.append({"clause": "sentence_end_heuristic_as_documented", "input": {"word": w},
+                             "got": heuristic_end_of_sentence(w), "want": documented_sentence_end(w)})
+                if len(viol) > 20:
+                    return n
+    for w in ("JavaScript.", "GitHub!", "iPhone?", "(PyTorch.)", "NASA.", "e.g.", "end.\"", "end\".", "Ok.", "x.", "3.", "naïve.", "word. "):
+        n += 1
+        if heuristic_end_of_sentence(w) != documented_sentence_end(w):
+            viol.append({"clause": "sentence_end_heuristic_as_documented", "input": {"word": w},
+                         "got": heuristic_end_of_sentence(w), "want": documented_sentence_end(w)})
+    return n
+
+
 def bounded(tier, seed):
     rnd = random.Random(seed)
     viol, evals, distinct = [], 0, set()
@@ -109,8 +161,10 @@ def bounded(tier, seed):
                         evals += 1
                 if len(samples) < 2:
                     samples.append({"sentences": sents, "width": width, "indents": [i0, i1], "lines": lines})
+    evals += check_heuristic(tier, viol)
     return {"evaluations": evals, "distinct_nontrivial": len(distinct), "violations": viol, "samples": samples,
-            "rule": "seeded paragraphs of 2-4 sentences drawn from 6 sentence lengths (1..12 words) x widths {30,60,88} x "
+            "rule": "(also: heuristic_end_of_sentence == an independent implementation of the documented rule on every word of "
+                    "length <= 4/5 over a 13-symbol alphabet) seeded paragraphs of 2-4 sentences drawn from 6 sentence lengths (1..12 words) x widths {30,60,88} x "
                     "{no indent, list indent}: break placement on the real line_wrap_by_sentence, and every single-sentence "
                     "replacement by three other sentences: line-level locality (prefix before the previous sentence's last line, "
                     "suffix after the first sentence ending on a line >= min length in both runs); distinct = distinct "
